@@ -22,7 +22,7 @@
    first-character set (FcPrefix).  *)
 From Verif Require Import Base.Prelude Model.CharClass Base.Utf8 Model.Tree Model.Spec Model.Analysis Model.Analysis2
      Proofs.AnalysisReach Proofs.AnalysisProofs Proofs.AnalysisPrefix Proofs.AnalysisFacts
-     Proofs.Analysis2Cls Proofs.Analysis2Ffcc Proofs.Analysis2Fixed Proofs.Analysis2Lal Proofs.Analysis2Prefixes Proofs.Analysis2Chain Proofs.Analysis2Fc
+     Proofs.Analysis2Cls Proofs.Analysis2Ffcc Proofs.Analysis2Fixed Proofs.Analysis2Lal Proofs.Analysis2Prefixes Proofs.Analysis2Chain Proofs.Analysis2Fc Proofs.Analysis2Abbrev
      Proofs.Utf8Proofs.
 
 (* ---- MinRequiredLength / MaxPossibleLength --------------------------------------------------- *)
@@ -457,6 +457,62 @@ Proof.
 Qed.
 Print Assumptions C04_first_chars_prefix_sound.
 
+(* The decoration of a published fixed-distance set (FixedDistanceSet.Negated / Range / Chars, prefixanalyzer.go:734)
+   says exactly what its Set says, for every rune: this is what lets the run-time search use IndexOfAny /
+   IndexOfAnyInRange instead of CharIn (runner.go charInFixedDistanceSet). *)
+Theorem C04_fixed_set_abbrev :
+  forall (cat_in : Z -> Z -> bool) (sets : list cls) (thorough : bool) root f,
+    forallb cls_good_b sets = true -> shape_ok false root = true -> lits_ok root = true ->
+    In f (find_fixed_distance_sets cat_in sets thorough root) ->
+    fs_neg f = neg (fs_set f) /\
+    (forall a b, fs_range f = Some (a, b) ->
+       forall x, char_in cat_in (fs_set f) x = xorb (fs_neg f) ((a <=? x) && (x <=? b))) /\
+    (fs_chars f <> [] ->
+       forall x, char_in cat_in (fs_set f) x = xorb (fs_neg f) (existsb (Z.eqb x) (fs_chars f))).
+Proof.
+  intros cat_in sets th root f Hg Hs Hl Hin. unfold find_fixed_distance_sets in Hin. apply in_map_iff in Hin.
+  destruct Hin as [[S d] [<- Hin]].
+  destruct (abbrev_decorate cat_in S d (abbrev_raw_good cat_in sets (sets_good_b cat_in sets Hg) th root Hs Hl S d Hin))
+    as (E1 & E2 & E3 & E4 & E5).
+  rewrite E1. split; [exact E3|]. split; [exact E4|exact E5].
+Qed.
+Print Assumptions C04_fixed_set_abbrev.
+
+(* findFixedDistanceString (optimizations.go:629) on the published sets: the string occurs at p + its distance at
+   every successful attempt at p (FindMode FixedDistanceString_LeftToRight); and a set whose Chars is one valid,
+   non-negated character pins that character (FixedDistanceChar_LeftToRight, LeadingChar). *)
+Theorem C04_fixed_distance_string_sound :
+  forall e (cat_in : Z -> Z -> bool) (sets : list cls) (thorough : bool) fuel root p s' str d0,
+    forallb cls_good_b sets = true ->
+    (forall id x, set_in e id x = char_in cat_in (set_cls sets id) x) ->
+    (forall i, 0 <= char_at e i <= 1114111) -> tlen e < INF ->
+    shape_ok false root = true -> no_ci_lit root = true -> lits_ok root = true -> 0 <= p <= tlen e ->
+    attempt e fuel root p = Ok (Some s') ->
+    find_fixed_distance_string (find_fixed_distance_sets cat_in sets thorough root) = Some (str, d0) ->
+    forall i, 0 <= i < zlen str -> char_at e (p + d0 + i) = nth (Z.to_nat i) str 0.
+Proof.
+  intros e cat_in sets th fuel root p s' str d0 Hg Ha Hv Hshort Hs Hn Hl Hp Hat Hf.
+  apply (fds_string_true cat_in e p (find_fixed_distance_sets cat_in sets th root) str d0); [|exact Hf].
+  exact (abbrev_all_true cat_in sets (sets_good_b cat_in sets Hg) e p Ha Hv Hshort th fuel root s' Hs Hn Hl Hp Hat).
+Qed.
+Print Assumptions C04_fixed_distance_string_sound.
+
+Theorem C04_fixed_distance_char_sound :
+  forall e (cat_in : Z -> Z -> bool) (sets : list cls) (thorough : bool) fuel root p s' f c,
+    forallb cls_good_b sets = true ->
+    (forall id x, set_in e id x = char_in cat_in (set_cls sets id) x) ->
+    (forall i, 0 <= char_at e i <= 1114111) -> tlen e < INF ->
+    shape_ok false root = true -> no_ci_lit root = true -> lits_ok root = true -> 0 <= p <= tlen e ->
+    attempt e fuel root p = Ok (Some s') ->
+    In f (find_fixed_distance_sets cat_in sets thorough root) -> fds_single f = Some c ->
+    p + fs_dist f < tlen e /\ char_at e (p + fs_dist f) = c.
+Proof.
+  intros e cat_in sets th fuel root p s' f c Hg Ha Hv Hshort Hs Hn Hl Hp Hat Hin Hsg.
+  pose proof (abbrev_all_true cat_in sets (sets_good_b cat_in sets Hg) e p Ha Hv Hshort th fuel root s' Hs Hn Hl Hp Hat f Hin) as Ht.
+  split; [exact (proj1 (proj2 Ht))|exact (fds_single_true cat_in e p f c Ht Hsg)].
+Qed.
+Print Assumptions C04_fixed_distance_char_sound.
+
 (* ---- non-vacuity ---- *)
 Definition ex2_sets : list cls := [ranges_cls [(98, 99)]].                       (* [bc] *)
 Definition ex2_cat : Z -> Z -> bool := fun _ _ => false.
@@ -554,4 +610,13 @@ Example C04_witness_first_chars_prefix :
   | Ok (Some (c, _)) => (ranges c, neg c) = ([(65536, 65536)], true)
   | _ => False
   end.
+Proof. vm_compute. repeat split; reflexivity. Qed.
+
+(* [bc]ad : the literal "ad" at distance 1 *)
+Definition ex2_fdstr : node :=
+  NCapture 0 0 (-1) (NConcat 0 [NChar CSet 0 0; NMulti 0 [97; 100]]).
+Example C04_witness_fixed_distance_string :
+  shape_ok false ex2_fdstr = true /\ lits_ok ex2_fdstr = true /\
+  find_fixed_distance_string (find_fixed_distance_sets ex2_cat ex2_sets false ex2_fdstr) = Some ([97; 100], 1) /\
+  attempt (ex2_env [99; 97; 100]) 10 ex2_fdstr 0 = Ok (Some {| pos := 3; caps := [(0, [(0, 3)])] |}).
 Proof. vm_compute. repeat split; reflexivity. Qed.
